@@ -74,10 +74,10 @@ fn to_py(core: &Core, ind: usize) -> String {
         }
         Core::ExpressionType { expr, ty } => format!("{}: {}", to_py(expr, ind), to_py(ty, ind)),
         Core::DocStr { string } => format!("\"\"\"{string}\"\"\""),
-        Core::Str { string } => format!("\"{string}\""),
-        Core::FStr { string } => format!("f\"{string}\""),
-        Core::Int { int } => int.clone(),
-        Core::ENum { num, exp } => format!("({num} * 10 ** {exp})"),
+        Core::Str { string } => format!("\"{}\"", string.replace('\n', "\\n")),
+        Core::FStr { string } => format!("f\"{}\"", string.replace('\n', "\\n")),
+        Core::Int { int } => decimal(int),
+        Core::ENum { num, exp } => format!("({} * 10 ** {})", decimal(num), decimal(exp)),
         Core::Float { float } => float.clone(),
         Core::Bool { boolean } => String::from(if *boolean { "True" } else { "False" }),
 
@@ -448,6 +448,16 @@ fn binary(left: &Core, op: &str, right: &Core, min: (usize, usize), ind: usize) 
         operand(left, min.0, ind),
         operand(right, min.1, ind)
     )
+}
+
+/// Python does not permit leading zeros in a decimal integer.
+fn decimal(int: &str) -> String {
+    if int.is_empty() || !int.chars().all(|c| c.is_ascii_digit()) {
+        return String::from(int);
+    }
+
+    let trimmed = int.trim_start_matches('0');
+    String::from(if trimmed.is_empty() { "0" } else { trimmed })
 }
 
 fn indent(amount: usize) -> String {
